@@ -14,6 +14,13 @@ SEVS = ["debug", "command", "info", "warning", "error", "fatal"]
 FACS = ["core", "config", "f1", "f2"]
 LINE_RE = re.compile(r"^\[\d\d:\d\d:\d\d \d\d/\d\d/\d{4}\] \(([^:()\s]+):(\w+)\) (.*)$")
 MSG_RE = re.compile(r"^MSG r=(\d+) f=(\S+) s=(\w+)$")
+LONG_RE = re.compile(r"^MSG r=(\d+) f=(\S+) s=(\w+) p=(\d*)$")
+LONG_LENS = [600, 990, 1000, 1023, 1024, 1100, 2048, 5000]
+LONG_SEVS = (2, 4)
+
+
+def padding(n):
+    return "".join(chr(48 + i % 10) for i in range(n))
 
 
 def randcase(rng, s):
@@ -112,6 +119,9 @@ def _worker(a):
                     tree = [(b"other", ("str", b"x"))]
                 p = b.add_file(confgen.render_conservative(tree))
                 cmds += ["LOAD " + confgen.pct(p), "EMIT %d %s" % (r, ",".join(FACS))]
+                if (i + r) % 3 == 0:
+                    # long texts (around and beyond the logger's formatting buffer): round number r+100
+                    cmds.append("EMITLONG %d %s %d" % (r + 100, ",".join(FACS), LONG_LENS[(i // 3 + r) % len(LONG_LENS)]))
             b.case("c%d" % i, cmds)
             meta["c%d" % i] = (i, dests, secs)
         recs, r = b.run()
@@ -126,7 +136,7 @@ def _worker(a):
         b.cleanup()
     out = []
     stats = {"sections": 0, "reload_sequences": 0, "routing_decisions_judged": 0, "expected_deliveries": 0, "expected_absences": 0,
-             "log_lines_checked": 0, "fatal_messages": 0, "invalid_entries": 0}
+             "log_lines_checked": 0, "fatal_messages": 0, "invalid_entries": 0, "long_lines_checked": 0, "long_lines_untruncated": 0}
     for rec in recs:
         i, dests, secs = meta[rec.name]
         wit = {"index": i, "sections": [confgen.render_conservative([(b"logs", ("obj", e))]).decode("latin-1") for e, _ in secs]}
@@ -158,6 +168,19 @@ def _worker(a):
                         out.append(("attribution", "attribution", "message %r written as (%s:%s)" % (m.group(3), m.group(1), m.group(2)), wit))
                     got.setdefault((int(mm.group(1)), mm.group(2), mm.group(3)), {}).setdefault(d, 0)
                     got[(int(mm.group(1)), mm.group(2), mm.group(3))][d] += 1
+                elif LONG_RE.match(m.group(3)):
+                    mm = LONG_RE.match(m.group(3))
+                    rr = int(mm.group(1)) - 100
+                    want_len = LONG_LENS[(i // 3 + rr) % len(LONG_LENS)]
+                    stats["long_lines_checked"] += 1
+                    if mm.group(2) != m.group(1) or mm.group(3) != m.group(2):
+                        out.append(("attribution", "attribution", "long message written as (%s:%s): %r" % (m.group(1), m.group(2), m.group(3)[:60]), wit))
+                    if not padding(want_len).startswith(mm.group(4)):
+                        out.append(("line-format", "line-format:long", "text of a %d-byte message garbled: %r..." % (want_len, m.group(3)[:80]), wit))
+                    if len(mm.group(4)) == want_len:
+                        stats["long_lines_untruncated"] += 1
+                    got.setdefault((int(mm.group(1)), mm.group(2), mm.group(3)), {}).setdefault(d, 0)
+                    got[(int(mm.group(1)), mm.group(2), mm.group(3))][d] += 1
                 elif m.group(3).startswith("MSG"):
                     out.append(("line-format", "line-format", "garbled message text %r" % m.group(3)[:100], wit))
         for r, (entries, routes) in enumerate(secs):
@@ -171,6 +194,11 @@ def _worker(a):
                     stats["expected_absences"] += len(dests) - len(want)
                     if s == 5:
                         stats["fatal_messages"] += 1
+                    if (i + r) % 3 == 0 and s in LONG_SEVS and want == have:
+                        have_long = set(got.get((r + 100, fac, SEVS[s]), {}))
+                        stats["routing_decisions_judged"] += len(dests)
+                        if have_long != want:
+                            have = have_long
                     if want != have:
                         kind = "missing" if (want - have) else "extra"
                         after = "after-reload" if r > 0 else "first-load"
@@ -203,7 +231,7 @@ def run(chk, tier, scale=1.0):
                 "lists, *, mixed case) x 1-3 file destinations (string or list, shared between entries) with invalid entries of every kind mixed in, "
                 "and sequences of 1-4 sections applied by reload; after each load one numbered message per (facility, severity) is emitted through the "
                 "real log_message (fatal ones in a forked child) and every destination file is read back: membership must equal the reference model's, "
-                "every line must be complete and attributed; distinct = section sequence; non-trivial = at least one entry")
+                "every line must be complete and attributed; every third round also emits messages padded to 600-5000 bytes (whose line must be well-formed and whose text must be a prefix of what was logged - truncation by the logger's buffer is not judged); distinct = section sequence; non-trivial = at least one entry")
     d, s = make_case(chk.seed, 0, tier)
     chk.sample({"sections": [confgen.render_conservative([(b"logs", ("obj", e))]).decode("latin-1") for e, _ in s]})
     chk.require("routing_decisions_judged", 20000)
